@@ -18,6 +18,9 @@ pub fn string_symbol(vm: &mut Vm) -> Result<VCell, Error> {
     let sym = s
         .char_indices()
         .map(|(idx, c)| match c {
+            // a backslash is an identifier character for the reader, but symbol->string
+            // decodes it as the start of an escape: it must itself be escaped
+            '\\' => format!("\\x{:x};", c as u32),
             c if idx == 0 && lex::is_initial_identifier(c) => c.to_string(),
             c if idx > 0 && lex::is_subsequent_identifier(c) => c.to_string(),
             c => format!("\\x{:x};", c as u32),
